@@ -10,6 +10,7 @@
 //	                restarts in between; answers, CAS results and table size vs the model
 //	-stage tokid    GetTokenID of every provisioner type + the key Authority.UseToken records
 //	-stage race     k = 2..32 goroutines released by a barrier presenting one token
+//	-stage careload the real ca.CA serving HTTPS on loopback: a token used, CA.Reload() (SIGHUP), the token replayed; with and without db
 //	-stage defects  the two D12 shapes (and their controls) against the property itself
 package main
 
@@ -28,7 +29,7 @@ func main() {
 	n := flag.Int("n", 100, "number of generated cases")
 	out := flag.String("out", "", "output file")
 	replay := flag.String("replay", "", "file of lines with a case=x<hex json> field to re-run")
-	stage := flag.String("stage", "hist", "hist | tokid | race | defects")
+	stage := flag.String("stage", "hist", "hist | tokid | race | careload | defects")
 	flag.Parse()
 	o, err := c.NewOut(*out)
 	if err != nil {
@@ -84,10 +85,15 @@ func main() {
 			rr := r.Fork()
 			runCase(o, &Case{Race: &Race{K: 2 + rr.Intn(31), JTI: !rr.Chance(1, 4), DB: !rr.Chance(1, 4), Mixed: rr.Chance(1, 3)}})
 		}
+	case "careload":
+		for _, cr := range []CAReload{{DB: false, Reloads: 1}, {DB: true, Reloads: 1}, {DB: false, Reloads: 2}, {DB: false, Reloads: 0}} {
+			cr := cr
+			runCase(o, &Case{CAReload: &cr})
+		}
 	case "defects":
 		for _, d := range []Defect{
 			{Kind: "nodb-same-second"}, {Kind: "nodb-later-second"}, {Kind: "db-same-second"},
-			{Kind: "respell", JTI: false}, {Kind: "respell", JTI: true},
+			{Kind: "respell", JTI: false}, {Kind: "respell", JTI: true}, {Kind: "respell-gcp"}, {Kind: "renewtok-acme"}, {Kind: "renewtok-k8s"},
 		} {
 			d := d
 			runCase(o, &Case{Defect: &d})
@@ -100,10 +106,11 @@ func main() {
 
 // Case is the replayable form of one line of any stage.
 type Case struct {
-	Hist   *Hist   `json:",omitempty"`
-	Tokid  *Tokid  `json:",omitempty"`
-	Race   *Race   `json:",omitempty"`
-	Defect *Defect `json:",omitempty"`
+	Hist     *Hist     `json:",omitempty"`
+	Tokid    *Tokid    `json:",omitempty"`
+	Race     *Race     `json:",omitempty"`
+	Defect   *Defect   `json:",omitempty"`
+	CAReload *CAReload `json:",omitempty"`
 }
 
 func caseField(k *Case) string {
@@ -132,6 +139,8 @@ func runCase(o *c.Out, k *Case) {
 			in, impl, want = runRace(k.Race)
 		case k.Defect != nil:
 			in, impl, want = runDefect(k.Defect)
+		case k.CAReload != nil:
+			in, impl, want = runCAReload(k.CAReload)
 		}
 	}()
 	if in == "" {
